@@ -115,6 +115,11 @@ Definition non_eq (i : list byte) : res tree :=
   match unescaped r1 with None => None | Some (v, r2) => Some (C Context id [octs attr; octs v], r2) end end end.
 
 Definition opt_tag (t i : list byte) : bool * list byte := match tag t i with Some r => (true, r) | None => (false, i) end.
+(* opt(terminated(tag(":dn"), peek(tag(":")))): the dn flag is taken only when a colon follows it (repair of F14) *)
+Definition opt_dn (i : list byte) : bool * list byte :=
+  match tag [":"; "d"; "n"]%byte i with
+  | Some ((c :: _) as r) => if beq c ":"%byte then (true, r) else (false, i)
+  | _ => (false, i) end.
 Definition opt_mrule (i : list byte) : option (list byte) * list byte :=   (* opt(preceded(tag(":"), attributetype)) *)
   match tag [":"%byte] i with
   | Some r => match attributetype r with Some (m, r') => (Some m, r') | None => (None, i) end
@@ -125,12 +130,12 @@ Definition ext_tag_of (mrule attr : option (list byte)) (v : list byte) (dn : bo
                [ctx_p 3 v] ++ (if dn then [ctx_p 4 [xff]] else [])).
 Definition attr_dn_mrule (i : list byte) : res tree :=
   match attributedescription i with None => None | Some (attr, r0) =>
-  let (dn, r1) := opt_tag [":"; "d"; "n"]%byte r0 in
+  let (dn, r1) := opt_dn r0 in
   let (mr, r2) := opt_mrule r1 in
   match tag [":"; "="]%byte r2 with None => None | Some r3 =>
   match unescaped r3 with None => None | Some (v, r4) => Some (ext_tag_of mr (Some attr) v dn, r4) end end end.
 Definition dn_mrule (i : list byte) : res tree :=
-  let (dn, r1) := opt_tag [":"; "d"; "n"]%byte i in
+  let (dn, r1) := opt_dn i in
   match tag [":"%byte] r1 with None => None | Some r1' =>
   match attributetype r1' with None => None | Some (m, r2) =>
   match tag [":"; "="]%byte r2 with None => None | Some r3 =>
@@ -194,6 +199,7 @@ Example t_abs_true : enc "(&)" = Some [160; 0]. Proof. vm_compute. reflexivity. 
 Example t_abs_false : enc "(|)" = Some [161; 0]. Proof. vm_compute. reflexivity. Qed.
 Example t_ext_dn : enc "(ou:dn:=People)" = Some ([169; 15; 130; 2] ++ bytesN "ou" ++ [131; 6] ++ bytesN "People" ++ [132; 1; 255])%list. Proof. vm_compute. reflexivity. Qed.
 Example t_ext_mrule : enc "(cn:2.5.13.5:=J D)" = Some ([169; 19; 129; 8] ++ bytesN "2.5.13.5" ++ [130; 2] ++ bytesN "cn" ++ [131; 3] ++ bytesN "J D")%list. Proof. vm_compute. reflexivity. Qed.
-(* the defect found by reading, on the model: *)
-Example t_dnmatch_rejected : enc "(cn:dnMatch:=x)" = None. Proof. vm_compute. reflexivity. Qed.
+(* F14 (a rule name that merely starts with "dn" used to be rejected), after the repair: *)
+Example t_dnmatch_accepted : enc "(cn:dnMatch:=x)" = Some ([169; 16; 129; 7] ++ bytesN "dnMatch" ++ [130; 2] ++ bytesN "cn" ++ [131; 1] ++ bytesN "x")%list. Proof. vm_compute. reflexivity. Qed.
+Example t_dn_flag_and_rule : enc "(cn:dn:dnMatch:=x)" = Some ([169; 19; 129; 7] ++ bytesN "dnMatch" ++ [130; 2] ++ bytesN "cn" ++ [131; 1] ++ bytesN "x" ++ [132; 1; 255])%list. Proof. vm_compute. reflexivity. Qed.
 Example t_caseexact_accepted : enc "(cn:caseExactMatch:=x)" <> None. Proof. vm_compute. discriminate. Qed.
